@@ -347,7 +347,7 @@ func init() {
 		Assumptions: []string{
 			"process death only (no tail cuts): file-system calls are atomic and durable in issue order",
 			"remove-all is additionally expanded into every subset of already removed entries (<= 6 entries) without changing what the real call does",
-			"Standard I/O",
+			"Standard I/O (DataFileSize 130 and 64) and MMap (64, histories one shorter)",
 		},
 		Tasks: func(tier string) []Task {
 			d, b := 3, 2
@@ -359,9 +359,14 @@ func init() {
 			c64 := defaultCfg
 			c64.FileSize = 64
 			cfgs = append(cfgs, c64)
+			mm := c64
+			mm.IO = 1
 			var levels []seqLevel
 			for l := 1; l <= d; l++ {
 				levels = append(levels, seqLevel{Name: fmt.Sprintf("history-len%d-nest%d", l, c07Nesting), Cfgs: cfgs, Keys: keysAB, Alpha: c07Alphabet, Depth: l, Dev: b, Run: runC07, MaxViols: 1})
+			}
+			for l := 1; l <= d-1; l++ {
+				levels = append(levels, seqLevel{Name: fmt.Sprintf("mmap-history-len%d-nest%d", l, c07Nesting), Cfgs: []Cfg{mm}, Keys: keysAB, Alpha: c07Alphabet, Depth: l, Dev: b, Run: runC07, MaxViols: 1})
 			}
 			tasks := seqTasks("C07", levels)
 			pb := 3
